@@ -64,6 +64,7 @@ type tailRig struct {
 func newTailRig(e *Env, opts ...tailer.Option) *tailRig {
 	r := &tailRig{e: e, lines: make(chan *logline.LogLine), sw: NewSimWaker(), pw: NewSimWaker()}
 	r.ctx, r.cancel = context.WithCancel(context.Background())
+	enableShortReads(e)
 	var all []tailer.Option
 	if e.Choose("knob", 5) == 0 {
 		// configuration variant: mtail's own timed wakers, driven by the fake clock
